@@ -65,6 +65,10 @@ def check(prop: str, tier: str, repo: str, replay=None, quiet=False, write_evide
         for r, k in knowns:
             out.append(f"KNOWN-FINDING: property={prop} {r.rule} {r.construct} {r.loc} -- {k.get('what_fails', r.what)}")
     os.makedirs(os.path.join(EVID, "replay"), exist_ok=True)
+    if write_evidence:
+        for fn in os.listdir(os.path.join(EVID, "replay")):
+            if fn.startswith(prop + "-"):
+                os.remove(os.path.join(EVID, "replay", fn))
     vio_lines = []
     for i, r in enumerate(violations):
         rp = os.path.join(EVID, "replay", f"{prop}-{r.rule}-{i}.json")
